@@ -5,7 +5,7 @@
 (* update, reached through SessionContext::sql).                            *)
 (*                                                                         *)
 (* State machine.  The state is the content of the target table t           *)
-(*   t(c1 BIGINT, c2 BIGINT, c3 VARCHAR)                                    *)
+(*   t(c1 BIGINT, c2 BIGINT, c3 VARCHAR, c4 BOOLEAN)                        *)
 (* as a sequence of rows (the observable is the BAG of rows: the placement  *)
 (* of rows among the table's partitions is not specified; the table is      *)
 (* created with the partition layout `parts0`), and a constant source table *)
@@ -31,8 +31,7 @@
 (* table content after every statement.  `vhist run` replays the rendered   *)
 (* SQL on a real SessionContext/MemTable (lib/c39.py compares).             *)
 (*                                                                         *)
-(* MODE = "main":  predicates that no row of the value universe satisfies   *)
-(*                 are not generated (see MODE "unsat").                    *)
+(* MODE = "main":  every statement kind, including "reject" statements.     *)
 (* MODE = "unsat": UPDATE/DELETE whose predicate is constant FALSE/NULL or  *)
 (*                 otherwise unsatisfiable (expected: nothing affected).    *)
 (***************************************************************************)
@@ -49,8 +48,8 @@ CONSTANTS NH,      \* number of initial seeds (histories = NH * BR^LEN)
                    \* "sequpd" assignments see earlier assignments, "nulltrue" NULL predicate affects the row,
                    \* "countall" count = table size) to measure that the replayed histories tell them apart
 
-Sch == <<"i", "i", "s">>
-W == 3
+Sch == <<"i", "i", "s", "b">>
+W == 4
 
 (* ---------------- seed threading (as in PlanGen) ---------------- *)
 M == 46337
@@ -119,7 +118,8 @@ TrueLit == LitT(TrueV, "b")
 GenPred(sd) == GenE("b", IF Chance(30, Mix(sd, 1)) THEN 1 ELSE EDEPTH, Mix(sd, 2))
 
 \* the value universe of the small scope: used to avoid / to request unsatisfiable predicates
-Universe == {<<a, b, c>> : a \in {IntVals[i] : i \in 1..5}, b \in {IntVals[i] : i \in 1..5}, c \in {StrVals[i] : i \in 1..4}}
+Universe == {<<a, b, c, d>> : a \in {IntVals[i] : i \in 1..5}, b \in {IntVals[i] : i \in 1..5}, c \in {StrVals[i] : i \in 1..4},
+                            d \in {BoolVals[i] : i \in 1..3}}
 Unsat(p) == \A r \in Universe : ~IsTrue(Eval(p, r))
 
 \* predicates the reference never satisfies (constant FALSE / NULL in many disguises, contradictions)
@@ -145,7 +145,7 @@ Stmt(kind, rows, cols, src, es, hp, p) ==
   [kind |-> kind, rows |-> rows, cols |-> cols, src |-> src, es |-> es, hp |-> hp, p |-> p]
 
 \* INSERT column lists: the full schema in order (written or omitted), a permutation, or a subset
-ColLists == << <<1, 2, 3>>, <<1, 2, 3>>, <<1, 2, 3>>, <<2, 1, 3>>, <<3, 1, 2>>, <<1, 3>>, <<2>>, <<3, 2>> >>
+ColLists == << <<1, 2, 3, 4>>, <<1, 2, 3, 4>>, <<1, 2, 3, 4>>, <<2, 1, 4, 3>>, <<3, 4, 1, 2>>, <<1, 3>>, <<2>>, <<3, 2>>, <<4, 1>>, <<1, 2, 3>> >>
 
 GenInsertValues(sd) ==
   LET cols == PickSeq(ColLists, Mix(sd, 1))
@@ -168,7 +168,7 @@ DeleteAll == Stmt("delete", <<>>, <<>>, "", <<>>, FALSE, NoE)
 
 \* assigned columns: a non-empty subset (in SET order, not necessarily schema order); an assignment is
 \* often a bare column (so SET c1 = c2, c2 = c1 and other references to assigned columns are frequent)
-AsgLists == << <<1>>, <<2>>, <<3>>, <<1, 2>>, <<2, 1>>, <<1, 2>>, <<1, 3>>, <<3, 2>>, <<1, 2, 3>>, <<2, 3, 1>> >>
+AsgLists == << <<1>>, <<2>>, <<3>>, <<4>>, <<1, 2>>, <<2, 1>>, <<1, 2>>, <<1, 3>>, <<3, 2>>, <<4, 1>>, <<1, 2, 3>>, <<2, 3, 1>>, <<2, 4, 3, 1>> >>
 GenUpdate(sd) ==
   LET cols == PickSeq(AsgLists, Mix(sd, 1))
       swap == Len(cols) >= 2 /\ cols[1] \in {1, 2} /\ cols[2] \in {1, 2} /\ Chance(35, Mix(sd, 5))
@@ -187,11 +187,52 @@ GenStmt(sd) ==
          [] c = 11 -> DeleteAll
          [] OTHER -> GenUpdate(Mix(sd, 2))
 
+(***************************************************************************)
+(* Statements the engine must refuse without touching the table ("reject"): *)
+(* malformed ones (wrong arity, unknown / duplicate column, unknown table,  *)
+(* uncastable value) and forms a MemTable does not implement (INSERT        *)
+(* OVERWRITE, REPLACE INTO, subqueries in UPDATE/DELETE).  For the subquery *)
+(* forms the statement also carries its SQL meaning as an ordinary          *)
+(* statement (`alt`: c IN (SELECT x FROM s) = c IN (the values of s.x),     *)
+(* c > (SELECT max(x) FROM s) = c > the maximum): an engine that executes   *)
+(* it instead of refusing must produce exactly that effect.                 *)
+(***************************************************************************)
+Malformed == <<"ins_overwrite", "replace_into", "ins_arity_less", "ins_arity_more", "ins_unknown_col", "ins_dup_col",
+               "upd_unknown_col", "upd_unknown_table", "del_unknown_table", "ins_badcast", "upd_scalar_set",
+               "upd_from", "upd_tuple", "ins_multipart">>
+SubForms == <<"del_in", "del_notin", "del_exists", "del_scalar", "upd_in", "upd_notexists", "upd_scalar">>
+ColVals(srows, c) == [i \in 1..Len(srows) |-> LitT(srows[i][c], "i")]
+NonNull(lits) == SelectSeq(lits, LAMBDA l : ~IsNull(l.v))
+RECURSIVE MaxV(_)
+MaxV(lits) == IF lits = <<>> THEN Null
+              ELSE LET m == MaxV(Tail(lits)) IN
+                   IF IsNull(Head(lits).v) THEN m ELSE IF IsNull(m) \/ Head(lits).v.v > m.v THEN Head(lits).v ELSE m
+\* the ordinary statement a subquery form means (sc, tc = the column of s / of t it uses)
+SubAlt(form, sc, tc, srows) ==
+  LET vals == ColVals(srows, sc)
+      nine == <<LitT(I(9), "i")>> IN
+  CASE form = "del_in" -> Stmt("delete", <<>>, <<>>, "", <<>>, TRUE, InList(Col(tc), vals, FALSE))
+    [] form = "del_notin" -> Stmt("delete", <<>>, <<>>, "", <<>>, TRUE, InList(Col(tc), vals, TRUE))
+    [] form = "del_exists" -> Stmt("delete", <<>>, <<>>, "", <<>>, TRUE, InList(Col(tc), NonNull(vals), FALSE))
+    [] form = "del_scalar" -> Stmt("delete", <<>>, <<>>, "", <<>>, TRUE, Bin(">", Col(tc), LitT(MaxV(vals), "i")))
+    [] form = "upd_in" -> Stmt("update", <<>>, <<1>>, "", nine, TRUE, InList(Col(tc), vals, FALSE))
+    [] form = "upd_notexists" -> Stmt("update", <<>>, <<1>>, "", nine, TRUE, Un("not", Un("istrue", InList(Col(tc), NonNull(vals), FALSE))))
+    [] form = "upd_scalar" -> Stmt("update", <<>>, <<1>>, "", nine, TRUE, Bin(">=", Col(tc), LitT(MaxV(vals), "i")))
+\* reject statement: src = the form, rows = <<>>, cols = <<sc, tc>> for subquery forms
+GenReject(sd) ==
+  IF Chance(55, Mix(sd, 1))
+    THEN Stmt("reject", <<>>, <<Rnd(Mix(sd, 3), 2) + 1, Rnd(Mix(sd, 4), 2) + 1>>, PickSeq(SubForms, Mix(sd, 2)), <<>>, FALSE, NoE)
+    ELSE Stmt("reject", <<>>, <<>>, PickSeq(Malformed, Mix(sd, 2)), <<>>, FALSE, NoE)
+IsSubForm(st) == st.kind = "reject" /\ Len(st.cols) = 2
+GenStmtS(sd, srows) == IF MODE = "main" /\ Chance(12, Mix(sd, 9)) THEN GenReject(Mix(sd, 8)) ELSE GenStmt(sd)
+
 (* ---------------- meaning of a statement on a table content ---------------- *)
 Pos(seq, x) == CHOOSE j \in 1..Len(seq) : seq[j] = x
 InSeq(seq, x) == \E j \in 1..Len(seq) : seq[j] = x
-\* the row an INSERT builds from the values `vals` given for the columns `cols` (others NULL)
-Widen(cols, vals) == [c \in 1..W |-> IF InSeq(cols, c) THEN vals[Pos(cols, c)] ELSE Null]
+\* the row an INSERT builds from the values `vals` given for the columns `cols`; a column that is not
+\* listed gets its declared default (d = the table declares defaults: c2 DEFAULT 5, c3 DEFAULT 'ab'), else NULL
+Dflt(c, d) == IF d /\ c = 2 THEN I(5) ELSE IF d /\ c = 3 THEN S(2) ELSE Null
+Widen(cols, vals, d) == [c \in 1..W |-> IF InSeq(cols, c) THEN vals[Pos(cols, c)] ELSE Dflt(c, d)]
 RowHasErr(r) == \E c \in 1..Len(r) : IsErr(r[c])
 
 \* per-row effect: o = "keep" (not affected), "chg" (affected; r = the new row, or deleted),
@@ -204,7 +245,7 @@ SeqUpd(st, r, c) ==
   IF c > W THEN r
   ELSE SeqUpd(st, IF InSeq(st.cols, c) THEN [r EXCEPT ![c] = Eval(st.es[Pos(st.cols, c)], r)] ELSE r, c + 1)
 
-RowFx(st, r) ==
+RowFx(st, r, d) ==
   LET pv == IF st.hp THEN Eval(st.p, r) ELSE TrueV IN
   IF IsErr(pv) THEN Fx("err", r)
   ELSE IF ~(IsTrue(pv) \/ (MUT = "nulltrue" /\ IsNull(pv))) THEN Fx("keep", r)
@@ -212,18 +253,19 @@ RowFx(st, r) ==
   ELSE LET nr == IF st.kind = "update" /\ MUT = "sequpd" THEN SeqUpd(st, r, 1)
                  ELSE IF st.kind = "update"
                    THEN [c \in 1..W |-> IF InSeq(st.cols, c) THEN Eval(st.es[Pos(st.cols, c)], r) ELSE r[c]]
-                   ELSE Widen(st.cols, [j \in 1..Len(st.cols) |-> Eval(st.es[j], r)])    \* insel
+                   ELSE Widen(st.cols, [j \in 1..Len(st.cols) |-> Eval(st.es[j], r)], d)    \* insel
        IN IF RowHasErr(nr) THEN Fx("err", r) ELSE Fx("chg", nr)
 
 \* result of a statement: [err, count, after, fx]   (fx = per-row effects over the scanned table)
 Res(err, count, after, fx) == [err |-> err, count |-> count, after |-> after, fx |-> fx]
 
-Apply(st, rows, srows) ==
-  IF st.kind = "insert"
-    THEN Res(FALSE, Len(st.rows), rows \o [j \in 1..Len(st.rows) |-> Widen(st.cols, st.rows[j])], <<>>)
+Apply(st, rows, srows, d) ==
+  IF st.kind = "reject" THEN Res(FALSE, 0, rows, <<>>)
+  ELSE IF st.kind = "insert"
+    THEN Res(FALSE, Len(st.rows), rows \o [j \in 1..Len(st.rows) |-> Widen(st.cols, st.rows[j], d)], <<>>)
   ELSE
     LET scanned == IF st.kind = "insel" /\ st.src = "s" THEN srows ELSE rows
-        fx == [i \in 1..Len(scanned) |-> RowFx(st, scanned[i])]
+        fx == [i \in 1..Len(scanned) |-> RowFx(st, scanned[i], d)]
         err == \E i \in 1..Len(fx) : fx[i].o = "err"
         hit == SelectSeq(fx, LAMBDA f : f.o = "chg") IN
     IF err THEN Res(TRUE, 0, rows, fx)
@@ -240,25 +282,24 @@ InScope(rows) ==
 
 \* a candidate statement with its effect; `unsat` is decided on the universe only when the statement
 \* affects no row of the current table (a predicate satisfied by some row is satisfiable)
-Cand(st, rows, srows) ==
-  LET r == Apply(st, rows, srows)
+Cand(st, rows, srows, d) ==
+  LET r == Apply(st, rows, srows, d)
       unsat == st.hp /\ r.count = 0 /\ Unsat(st.p) IN
   [st |-> st, r |-> r, unsat |-> unsat,
    ok |-> /\ InScope(r.after)
-          /\ (MODE = "main" => ~unsat)
           /\ (MODE = "unsat" => unsat)]
 
 Fallback(rows) == IF MODE = "unsat" THEN Stmt("delete", <<>>, <<>>, "", <<>>, TRUE, LitT(FalseV, "b"))
-                  ELSE IF Len(rows) < MAXT THEN Stmt("insert", <<<<I(0), Null, S(1)>>>>, <<1, 2, 3>>, "", <<>>, FALSE, NoE)
+                  ELSE IF Len(rows) < MAXT THEN Stmt("insert", <<<<I(0), Null, S(1), TrueV>>>>, <<1, 2, 3, 4>>, "", <<>>, FALSE, NoE)
                   ELSE DeleteAll
 
-ChooseStmt(sd, rows, srows) ==
-  LET c1 == Cand(GenStmt(Mix(sd, 101)), rows, srows)
-      c2 == Cand(GenStmt(Mix(sd, 102)), rows, srows)
-      c3 == Cand(GenStmt(Mix(sd, 103)), rows, srows)
-      c4 == Cand(GenStmt(Mix(sd, 104)), rows, srows) IN
+ChooseStmt(sd, rows, srows, d) ==
+  LET c1 == Cand(GenStmtS(Mix(sd, 101), srows), rows, srows, d)
+      c2 == Cand(GenStmtS(Mix(sd, 102), srows), rows, srows, d)
+      c3 == Cand(GenStmtS(Mix(sd, 103), srows), rows, srows, d)
+      c4 == Cand(GenStmtS(Mix(sd, 104), srows), rows, srows, d) IN
   IF c1.ok THEN c1 ELSE IF c2.ok THEN c2 ELSE IF c3.ok THEN c3 ELSE IF c4.ok THEN c4
-  ELSE Cand(Fallback(rows), rows, srows)
+  ELSE Cand(Fallback(rows), rows, srows, d)
 
 (* ---------------- the state machine ---------------- *)
 VARIABLES seed0,   \* initial seed of this history (identifies it)
@@ -272,6 +313,7 @@ vars == <<seed0, sd, rows, hist>>
 NParts(s0) == Rnd(Mix(s0, 1), 3) + 1
 Parts0(s0) == [p \in 1..NParts(s0) |-> GenRows(Rnd(Mix(s0, 10 + p), 4), Mix(s0, 20 + p))]
 SRows(s0) == GenRows(Rnd(Mix(s0, 2), 5), Mix(s0, 3))
+HasDflt(s0) == Chance(40, Mix(s0, 6))
 RECURSIVE FlatP(_)
 FlatP(ps) == IF ps = <<>> THEN <<>> ELSE Head(ps) \o FlatP(Tail(ps))
 
@@ -282,10 +324,14 @@ Init == /\ seed0 \in RandomSubset(NH, 1..(M - 1))
 
 Step(b) ==
   LET s1 == Mix(sd, b)
-      c == ChooseStmt(s1, rows, SRows(seed0)) IN
+      c == ChooseStmt(s1, rows, SRows(seed0), HasDflt(seed0))
+      alt == IF IsSubForm(c.st)
+               THEN LET a == Apply(SubAlt(c.st.src, c.st.cols[1], c.st.cols[2], SRows(seed0)), rows, SRows(seed0), HasDflt(seed0)) IN
+                    [err |-> a.err, count |-> a.count, after |-> a.after]
+               ELSE [err |-> FALSE, count |-> 0, after |-> <<>>] IN
   /\ rows' = c.r.after
   /\ hist' = Append(hist, [st |-> c.st, err |-> c.r.err, count |-> c.r.count, after |-> c.r.after, fx |-> c.r.fx,
-                           before |-> Len(rows), unsat |-> c.unsat])
+                           before |-> Len(rows), unsat |-> c.unsat, alt |-> alt])
   /\ sd' = Mix(s1, 4242)
   /\ UNCHANGED seed0
 
@@ -300,6 +346,7 @@ StepOK ==
     /\ (~h.err /\ h.st.kind = "delete") => Len(h.after) = h.before - h.count
     /\ (~h.err /\ h.st.kind = "update") => (Len(h.after) = h.before /\ h.count <= h.before)
     /\ (~h.err /\ h.st.kind \in {"insert", "insel"}) => Len(h.after) = h.before + h.count
+    /\ h.st.kind = "reject" => (h.count = 0 /\ Len(h.after) = h.before)
     /\ (~h.err /\ h.unsat /\ h.st.kind \in {"delete", "update"}) => h.count = 0
     /\ InScope(h.after)
 
@@ -307,5 +354,6 @@ Emit ==
   (Len(hist) = LEN) =>
     PrintT(<<"CASE", ToJson([seed |-> seed0, parts0 |-> Parts0(seed0), srows |-> SRows(seed0),
                              batch |-> Rnd(Mix(seed0, 4), 3), tp |-> PickSeq(<<1, 2, 4>>, Mix(seed0, 5)),
+                             dflt |-> HasDflt(seed0),
                              steps |-> hist])>>)
 =============================================================================
